@@ -11,8 +11,10 @@ PROP = "C01"
 QUICK_WORKERS = 4
 
 # deviation flags of the reference evaluator that model documented (open) defects: signature -> flags
-BASE_DEVS = [("filter-singleton-unwrapped", "eager_unwrap"), ("closure-dynamic-scope", "dynamic_scope"),
-             ("null-left-equality", "null_left_eq")]
+# (only OPEN findings: the model of a repaired defect must not take part in explaining a value - in the thorough run of the eighth wave the pair
+# eager_unwrap + null_left_eq "explained" a value that eager_unwrap alone leaves undetermined, and the pair is not a known finding because
+# null-left-equality is repaired (ff6e9c4); a regression of a repaired defect shows as plain wrong-value)
+BASE_DEVS = [("filter-singleton-unwrapped", "eager_unwrap"), ("closure-dynamic-scope", "dynamic_scope")]
 
 
 def _devs():
